@@ -391,6 +391,8 @@ def finish(mod, total, tier, seed, wall):
         "%s tier=%s seed=%d states=%d transitions=%d cases=%d outcomes=%d violations=%d known=%d wall=%.1fs"
         % (pid, tier, seed, total.states, total.transitions, total.cases, len(total.outcomes), nviol, sum(n for _, n in known.values()), wall)
     )
+    if rc:
+        return 1  # a violation was exhibited (harness problems, if any, are printed above and recorded in the evidence)
     if harness_errors:
         return 2
-    return 1 if rc else 0
+    return 0
